@@ -66,6 +66,7 @@ fn default_layout() -> Layout {
         blocks: vec![],
         eof_marker: true,
         level: 6,
+    bcf_minor: 0,
     }
 }
 
@@ -122,6 +123,10 @@ fn gen_variant(rng: &mut Rng, payload_vcf: &[u8], l1: bool, thorough: bool) -> V
         0 => {
             v.label = "container".into();
             v.container = pick_container(rng);
+            if matches!(v.container, Container::Bcf | Container::BcfRaw) && rng.chance(1, 3) {
+                // BCF 2.1 instead of 2.2: same records, same decoder
+                v.layout.bcf_minor = 1;
+            }
         }
         1 => {
             v.label = "layout".into();
@@ -297,6 +302,20 @@ impl Prop for C12 {
         let mut variants = vec![];
         for _ in 0..n_l2 {
             variants.push(gen_variant(&mut rng, &vcf, false, thorough));
+        }
+        if vcf.len() > 65536 {
+            // beyond the detection prefix / one pipe buffer: every transport for the plain file
+            for t in [Transport::DevStdin, Transport::StdinPipe, Transport::StdinChunked] {
+                let mut v = gen_variant(&mut rng, &vcf, false, thorough);
+                v.label = "transport".into();
+                v.container = Container::Vcf;
+                v.layout = default_layout();
+                v.transport = t;
+                v.rd_first = *rng.pick(&[1usize, 1000, 65535, 65536, 65537]);
+                v.rd_rest = *rng.pick(&[4096usize, 65536, 100_000]);
+                v.filename = None;
+                variants.push(v);
+            }
         }
         for _ in 0..n_l1 {
             variants.push(gen_variant(&mut rng, &vcf, true, thorough));
